@@ -48,6 +48,8 @@ CONSTANTS NSyms,      \* number of assignable symbols (prefix of A, B, C, D)
           MaxAdm,     \* enumerate admissible removal sets only when at most MaxAdm statements are candidates
           MinEmit,    \* programs shorter than this are not emitted
           MaxRmSet,   \* remove_symbol_definitions is queried with symbol sets of at most this size
+          ChainMode,  \* BOOLEAN: def-use chain family -- every right hand side is ONE atom, the leaf of the position or a
+                      \* symbol that an earlier statement defines (exhaustive family for long dependency chains)
           Thin, ThinRes, FullDepth,   \* beyond length FullDepth only the successors with Hash % Thin = ThinRes are explored
                                       \* (Thin = 1: exhaustive; Thin > 1: a seed-chosen random subtree of longer programs)
           SampleMod, SampleRes   \* a program is emitted as a case iff Hash(prog) % SampleMod = SampleRes
@@ -145,7 +147,7 @@ UseAtoms(i) == Syms \cup {LeafOf(i)} \cup (IF HasOde(prog) THEN {Amt} ELSE {})
 RECURSIVE BagsUpTo(_, _)
 BagsUpTo(U, n) == IF n = 0 THEN {Zero}
                   ELSE LET prev == BagsUpTo(U, n - 1) IN prev \cup {Add(b, Unit(a)) : b \in prev, a \in U}
-WithConst(b, i) == IF Weight(b) = 0 \/ i % 2 = 0 THEN [b EXCEPT ![One] = 1] ELSE b
+WithConst(b, i) == IF ChainMode THEN b ELSE IF Weight(b) = 0 \/ i % 2 = 0 THEN [b EXCEPT ![One] = 1] ELSE b
 \* symbols are introduced in the order A, B, C, D (programs equal up to renaming are explored once)
 Canon(st) == LET all == SeenIn(prog, Len(prog)) \cup SymsIn(st)
              IN /\ Thinned(st)
@@ -167,7 +169,9 @@ OdeStmt(b) == /\ Room /\ WithODE /\ ~HasOde(prog) /\ Weight(b) > 0
               /\ LET st == [k |-> "ode", lhs |-> Amt, g |-> FALSE, t |-> b, f |-> b, ra |-> AtomsOf(b, b)]
                  IN Canon(st) /\ Step(st)
 
-Bags == BagsUpTo(UseAtoms(pc + 1), MaxUses)
+DefinedSyms == {prog[i].lhs : i \in 1..Len(prog)} \cap Syms
+Bags == IF ChainMode THEN {Unit(a) : a \in {LeafOf(pc + 1)} \cup DefinedSyms}
+        ELSE BagsUpTo(UseAtoms(pc + 1), MaxUses)
 DoAssign == Room /\ \E lhs \in Syms, b \in Bags : Assign(lhs, b)
 DoGuarded == Room /\ NGuards(prog) < MaxGuards /\ \E lhs \in Syms, b \in Bags, els \in {"old", "one"} : Guarded(lhs, b, els)
 DoOde == Room /\ WithODE /\ ~HasOde(prog) /\ \E b \in Bags : OdeStmt(b)
